@@ -434,7 +434,8 @@ VERUS_LIFTS["glr_disamb_block"] = glr_disamb_block_range
 # LRTable::calculate_reductions -- for every lookahead of a reducing item, the cell of that terminal receives the
 # reduction (directly if empty, through conflict resolution otherwise).  Contains the conflict_block range.
 
-REDUCE_DECLARED = ["item", "new_reduce", "prod", "self", "state"]
+REDUCE_DECLARED = ["item", "prod", "self", "state"]
+REDUCE_START = "let new_reduce = Action::Reduce(item.prod, item.position);"
 
 
 def reduce_block_range(repo):
@@ -443,28 +444,36 @@ def reduce_block_range(repo):
     imp = src.find_impl(r"^impl < 'g , 's > LRTable < 'g , 's >", has="calculate_reductions")
     fn = imp.child("fn", "calculate_reductions")
     t = src.toks
-    fors = [i for i in range(fn.body_open, fn.body_close) if t[i].kind == "ident" and t[i].text == "for"
-            and norm_tokens_local(src, i, i + 16).startswith("forfollow_symbolinitem.follow.borrow().iter(){")]
-    if len(fors) != 1:
-        raise ExtractError("reduce block: `for follow_symbol in item.follow.borrow().iter() {` not found exactly once in calculate_reductions")
-    lo = fors[0]
-    ob = lo
-    while t[ob].text != "{":
-        ob += 1
-    hi = src.match(ob) + 1
-    before = _stmt_before(src, lo, fn)
-    if not before.endswith("}letnew_reduce=Action::Reduce(item.prod,item.position);"):
-        raise ExtractError("reduce block: the statement in front of the range changed: %r" % before[-120:])
-    # the range must be the last statement of the item loop's body
-    nxt = src.sig(hi)
-    if t[nxt].text != "}":
-        raise ExtractError("reduce block: statements follow the range inside the item loop")
-    # pin the loop headers and the bindings the free variables come from
+    body_s = t[fn.body_open].e
+    body = src.text[body_s:t[fn.body_close].s]
+    if body.count(REDUCE_START) != 1:
+        raise ExtractError("reduce block: anchor `%s` not found exactly once in calculate_reductions" % REDUCE_START)
+    lo_off = body_s + body.index(REDUCE_START)
+    lo = next(i for i in range(fn.body_open, fn.body_close) if t[i].s == lo_off)
+    # the range runs to the end of the item loop's body: the enclosing `{` of lo
+    depth = 0
+    k = lo
+    while True:
+        k -= 1
+        if t[k].text in rsx.CLOSE:
+            depth += 1
+        elif t[k].text in rsx.OPEN:
+            if depth == 0:
+                break
+            depth -= 1
+    if t[k].text != "{":
+        raise ExtractError("reduce block: unexpected enclosing bracket")
+    hi = src.match(k)  # the closing brace of the item loop body (exclusive end of the range)
+    # pin the loop headers and the binding the free variables come from, and what lies between them and the range
     head = "".join(x.text for x in t[fn.body_open + 1:lo] if x.kind not in ("ws", "comment"))
     for need in ("forstatein&mutself.states{", "foriteminstate.items.iter().filter(|x|x.is_reducing()){", "letprod=&self.grammar.productions[item.prod];"):
         if head.count(need) != 1:
             raise ExtractError("reduce block: expected exactly one `%s` in front of the range" % need)
-    block_text = src.text[t[lo].s:t[hi - 1].e]
+    if not head.endswith("continue;}"):
+        raise ExtractError("reduce block: the statement in front of the range is no longer the augmented-production `if .. { .. continue; }`: %r" % head[-80:])
+    if "for" not in [x.text for x in t[lo:hi] if x.kind == "ident"]:
+        raise ExtractError("reduce block: no loop over the lookaheads inside the range")
+    block_text = src.text[t[lo].s:t[hi].s]
     outside = bound_names_outside(src, fn, lo, hi)
     used = set(idents(src, lo, hi))
     inside = bound_names_inside(src, lo, hi)
@@ -472,14 +481,15 @@ def reduce_block_range(repo):
     if free != REDUCE_DECLARED:
         raise ExtractError(f"reduce block: free variables changed: now {free}, declared {REDUCE_DECLARED}")
     sha = hashlib.sha256(block_text.encode()).hexdigest()[:16]
-    a, z = src.line_of(t[lo].s), src.line_of(t[hi - 1].e)
+    a, z = src.line_of(t[lo].s), src.line_of(t[hi].s)
     meta = {"lift": "reduce_block", "file": rel, "lines": [a, z], "sha256_16": sha, "free_variables": REDUCE_DECLARED,
-            "note": "`state` is the loop variable of `for state in &mut self.states` (a `&mut LRState`), `item` the loop variable of `for item in "
-                    "state.items.iter().filter(|x| x.is_reducing())` (a `&LRItem` borrowed from state.items while state.actions is written: "
-                    "disjoint fields in the source, separate parameters here), `prod` is `&self.grammar.productions[item.prod]`, `new_reduce` is "
-                    "`Action::Reduce(item.prod, item.position)` (all pinned: a change is exit 2).  The range contains the conflict_block range."}
+            "note": "the statements of the item loop of calculate_reductions from `let new_reduce = ..` to the end of the loop body (whatever lies between that "
+                    "binding and the loop over the lookaheads is inside the range).  `state` is the loop variable of `for state in &mut self.states` (a `&mut LRState`), "
+                    "`item` the loop variable of `for item in state.items.iter().filter(|x| x.is_reducing())` (a `&LRItem` borrowed from state.items while state.actions is "
+                    "written: disjoint fields in the source, separate parameters here), `prod` is `&self.grammar.productions[item.prod]` (pinned: a change is exit 2).  "
+                    "The range contains the conflict_block range."}
     header = ("impl<'g, 's> LRTable<'g, 's> {\n    fn reduce_block(\n        &self,\n        state: &mut LRState<'g>,\n        item: &LRItem,\n"
-              "        prod: &Production,\n        new_reduce: Action,\n    ) {\n                ")
+              "        prod: &Production,\n    ) {\n                ")
     return header + block_text + "\n    }\n}\n", meta
 
 
